@@ -539,3 +539,13 @@ MUTANTS['C12']['send-trims-before-send'] = ([(SU, """                    sent = 
                     sent = self.sock.send(chunk)
                     total_sent += sent
                     sbuf[0] = chunk[sent:] + sbuf[0]""")], 'detect')
+
+MUTANTS['C05']['cleanup-only-for-Exception-subclasses'] = ([(FU, """        if exc_type:
+            if self.rm_part_on_exc:
+                try:
+                    os.unlink(self.part_path)""", """        if exc_type and not issubclass(exc_type, Exception):
+            return  # KeyboardInterrupt & co: get out of the way quickly
+        if exc_type:
+            if self.rm_part_on_exc:
+                try:
+                    os.unlink(self.part_path)""")], 'detect')
